@@ -437,4 +437,65 @@ Section CoreRun.
     unfold want, nonblank in Hwant. cbn [fst snd] in *. apply andb_prop in Hwant. destruct Hwant as [_ Hnb].
     destruct l; [discriminate|discriminate].
   Qed.
+
+  (** * subtotal() of a header by a header: per value, the total over the scanned lines holding it *)
+  Definition subtotal_once (nm : Z) (i j : nat) (cs : list comp) : Prop :=
+    exists pre post, cs = pre ++ CAgg (Subtotal nm i (NHdr j)) :: post /\
+      Forall (fun c => writes_comp c <> Some nm) pre /\ Forall (fun c => writes_comp c <> Some nm) post.
+
+  Lemma line_subtotal nm i j cs e s l key : subtotal_once nm i j cs -> stopped mx s = false -> l <> [] ->
+    num_of (dget (x mx (fst (core_m q blanks AND cs e s l))) nm key) =
+      num_of (dget (x mx s) nm key) + (if ustr_eqb (hdr_key l i) key then cell_num l j else 0).
+  Proof.
+    intros (pre & post & Hcs & Hpre & Hpost) Hs Hl.
+    assert (Hb: (oeqb e (pln mx s) && is_nil l) = false) by (destruct l; [contradiction|apply andb_false_r]).
+    rewrite (core_line_vote q blanks AND cs e s l Hs Hb). cbn [fst]. cbv beta.
+    assert (He: forall k, dget (x mx (ensure cs s)) nm k = dget (x mx s) nm k)
+      by (intros k; unfold ensure; destruct (frozen mx s); reflexivity).
+    rewrite Hcs at 1. rewrite seq_eval_app. cbn [seq_eval].
+    set (s1 := fst (seq_eval cst comp (ev l) AND pre (ensure cs s) (negb AND))).
+    assert (H1: forall k, dget (x mx s1) nm k = dget (x mx s) nm k)
+      by (intros k; unfold s1; rewrite seq_eval_frame by exact Hpre; apply He).
+    pose proof (subtotal_step blanks AND s1 l nm i (NHdr j)) as T. cbn zeta in T. destruct T as (T1 & T2).
+    change (eval q blanks AND (CAgg (Subtotal nm i (NHdr j))) s1 l) with (do_agg blanks AND s1 l (Subtotal nm i (NHdr j))).
+    destruct (do_agg blanks AND s1 l (Subtotal nm i (NHdr j))) as [s2 v] eqn:Ed. cbn [fst] in T1, T2.
+    rewrite seq_eval_frame by exact Hpost.
+    destruct (ustr_eqb (hdr_key l i) key) eqn:Ek.
+    - apply ustr_eqb_eq in Ek. subst key. rewrite T1, H1, neval_hdr. reflexivity.
+    - rewrite T2; [rewrite H1; lia|]. intros E0. rewrite E0, ustr_eqb_refl in Ek. discriminate.
+  Qed.
+
+  Definition subtotal_of (i j : nat) (key : ustring) (lines : list (Z * line ustring)) : Z :=
+    fold_right (fun nl acc => (if ustr_eqb (hdr_key (snd nl) i) key then cell_num (snd nl) j else 0) + acc) 0 lines.
+
+  Lemma fold_subtotal nm i j cs e key : subtotal_once nm i j cs -> forall lines s, Forall (fun nl : Z * line ustring => snd nl <> []) lines ->
+    num_of (dget (x mx (fold_left (line_step ustring mx (core_m q blanks AND cs e)) lines s)) nm key) =
+    num_of (dget (x mx s) nm key) + subtotal_of i j key lines.
+  Proof.
+    intros Ht. induction lines as [|[n l] lines IH]; intros s Hnb; [cbn; lia|].
+    inversion Hnb as [|nl0 r0 Hl Hr]; subst. cbn [snd] in Hl. cbn [fold_left].
+    rewrite (IH _ Hr).
+    assert (Hx: num_of (dget (x mx (line_step ustring mx (core_m q blanks AND cs e) s (n, l))) nm key) =
+                num_of (dget (x mx s) nm key) + (if ustr_eqb (hdr_key l i) key then cell_num l j else 0)).
+    { unfold line_step. cbn [fst snd].
+      set (s1 := mkRs mx n (scan_count mx s + 1) (match_count mx s) (match_count mx s) 0 false false (x mx s)).
+      pose proof (line_subtotal nm i j cs e s1 l key Ht eq_refl Hl) as H. cbn [x] in H.
+      destruct (core_m q blanks AND cs e s1 l) as [s2 v]. cbn [fst] in H.
+      destruct v; [unfold raise_match_count_if; destruct (_ =? _); cbn [x]; exact H|exact H]. }
+    rewrite Hx. cbn [subtotal_of fold_right snd]. fold (subtotal_of i j key lines). lia.
+  Qed.
+
+  Theorem subtotal_totals_scanned sh (c : cfg) E cs (recs : list (line ustring)) x0 nm i j key :
+    wf sh -> parse false (ast_of sh) = Some (scanner c) -> q_scan c = false -> end_line c = Some E ->
+    end_of ustring recs = Some E -> will_run c = true -> subtotal_once nm i j cs ->
+    num_of (dget (x mx (st ustring mx (run_from ustring mx (core_m q blanks AND cs (Some E)) c (rs0 mx x0) None recs))) nm key) =
+    num_of (dget x0 nm key) + subtotal_of i j key (filter (want ustring sh) (number 0 recs)).
+  Proof.
+    intros Hwf Hp Hq He Hend Hw Ht.
+    pose proof (core_run_is_fold sh c E cs recs x0 Hwf Hp Hq He Hend Hw) as H. unfold core in H. injection H as Hx _ _.
+    rewrite Hx. rewrite (fold_subtotal nm i j cs (Some E) key Ht); [reflexivity|].
+    apply Forall_forall. intros [n l] Hin. apply filter_In in Hin. destruct Hin as [_ Hwant].
+    unfold want, nonblank in Hwant. cbn [fst snd] in *. apply andb_prop in Hwant. destruct Hwant as [_ Hnb].
+    destruct l; [discriminate|discriminate].
+  Qed.
 End CoreRun.
